@@ -22,6 +22,7 @@ EXPLANATION = (
     "destructured outside try/attempt, responses not built from req.MessageID or not sent on the "
     "request's context. Covers every handler behaviour (any return/yield/raise) because it "
     "quantifies over paths, not over handler values."
+    " Fourth session: (exchange-framed) borrowed from C15: the final response is cut into exactly the fragments the peer reassembles and a request's data set is waited for."
 )
 
 
